@@ -10,7 +10,7 @@ from .. import core, gen, hist, model
 from ..session import Outcome
 from . import PropBase, steps_with_ids
 
-FAULTS = ("buffer_reuse", "other_carrier_first", "shrink", "clear", "mutate_loaded", "exhaust_scan")
+FAULTS = ("buffer_reuse", "other_carrier_first", "shrink", "clear", "mutate_loaded", "exhaust_scan", "cut_window")
 
 MALFORMED = ["[1, 2", '{"a": 1', "{'a': 1}", "[1,]", "nul", "tru", "01", "1.", ".5", "--1", '"unterminated', "{]", "[[]", "1 2", "{\"a\":}",
              "\x00", "\x7f", "a\x00b", "﻿1", " 1 ", "\t[1]\n", "é", "中文", "\U0001f600", "1,2", "(1, 2)", "{1, 2}", "b'x'", "None", "True",
@@ -56,7 +56,7 @@ class C14(PropBase):
         "held another message before (F4), the text was seen in another carrier earlier, the strload memo was shrunk to capacity "
         "1/2, a decoded container returned earlier was mutated, or a memo written earlier was read; distinct = distinct "
         "(operation digest, pre-state signature) pairs."
-        ' Under the swept exhaustion fault the first carrier is first offered from every stack depth at which the call cannot complete (Python-literal text over-represented).'
+        ' Under the swept exhaustion fault the first carrier is first offered from every stack depth at which the call cannot complete (Python-literal text over-represented). Cut windows: the byte carriers are given bytes that end inside a multi-byte character (no str says the same); they still get one answer.'
     )
     ASSUMPTIONS = ["T has no bytes-like members", "JSON texts are those produced by json.dumps of wire values plus a fixed pool of look-alikes and malformed texts; "
                    "NaN/Infinity are not JSON"]
@@ -92,6 +92,16 @@ class C14(PropBase):
             v, w = rng.choice(pairs)
             jt = hist.json_text(w)
             rt = hist.repr_text(w)
+            if "cut_window" in sw and rng.random() < 0.12:
+                # a fixed-size window that ends inside a multi-byte character: the bytes are not text in the
+                # encoding, no str says the same - the byte carriers still all get one answer, and
+                # whatever was read of it must not be there for the next message
+                txt = rng.choice(["caf\u00e9", "\u4e2d\u6587", "[1, \"\u00e9\"]", "{\"k\": \"\U0001f600\"}", "12\u00e9", "\u00e9"])
+                raw = txt.encode("utf-8")
+                order = ["bytes", "bytearray", "mv", "mvw", "mvs", "mvws"]
+                rng.shuffle(order)
+                steps.append({"op": "cut", "t": t, "hex": raw[:-1].hex(), "order": order, "mod": rng.choice(mods)})
+                continue
             kind = core.weighted(rng, [(6, "carriers"), (3, "text_vs_value"), (4, "load"), (2 if "buffer_reuse" in sw else 0, "reuse"),
                                        (2 if "mutate_loaded" in sw else 0, "load_mutate")])
             mod = rng.choice(mods)
@@ -170,6 +180,17 @@ class C14(PropBase):
             sess._c14 = outs
             ref = outs["str"]
             return Outcome(ref.ok, ref.value, ref.exc)
+        if op == "cut":
+            T = sess.T(step)
+            outs = {}
+            tag = {"bytes": "$b", "bytearray": "$ba", "mv": "$mv", "mvw": "$mvw", "mvs": "$mvs", "mvws": "$mvws"}
+            for c in step["order"]:
+                outs[c] = sess.guarded(sess.call, step, typelib.unmarshal, T, sess.V({tag[c]: step["hex"]}))
+            sess._c14 = outs
+            sess.faults["cut_window"] += 1
+            sess.fault_fired_before = True
+            first = outs[step["order"][0]]
+            return Outcome(first.ok, first.value, first.exc)
         if op == "text_vs_value":
             T = sess.T(step)
             wire_py = gen.wire_to_json(step["w"])
@@ -234,7 +255,7 @@ class C14(PropBase):
         return True
 
     def nontrivial(self, sess, i, step, out, hit_delta):
-        return step["op"] in ("reuse", "load_mutate") or sess.fault_fired_before or hit_delta > 0
+        return step["op"] in ("reuse", "load_mutate", "cut") or sess.fault_fired_before or hit_delta > 0
 
     def check(self, sess, i, step, out):
         op = step["op"]
@@ -248,6 +269,14 @@ class C14(PropBase):
                     sess.violation("carrier-disagree", i, {"t": model.tsrc(step["t"]), "s": step["s"][:120], "carrier": c,
                                                            "str": repr(ref)[:140], "other": repr(o)[:140]},
                                    sig=f"carrier-disagree:{c}:{'raise-vs-ok' if o.ok != ref.ok else 'value'}")
+                    return
+        elif op == "cut":
+            outs = sess._c14
+            first = outs[step["order"][0]]
+            for c, o in outs.items():
+                if o.ok != first.ok or (o.ok and not model.same(o.value, first.value)):
+                    sess.violation("carrier-disagree", i, {"t": model.tsrc(step["t"]), "bytes": step["hex"], "carrier": c, "first": repr(first)[:140], "other": repr(o)[:140]},
+                                   sig=f"carrier-disagree:cut-window:{'raise-vs-ok' if o.ok != first.ok else 'value'}")
                     return
         elif op == "text_vs_value":
             a, b, text = sess._c14
